@@ -230,6 +230,17 @@ func main() {
 		fmt.Fprintln(os.Stderr, err)
 		os.Exit(1)
 	}
+	gx, err := goExprs(*repo)
+	if err != nil {
+		fmt.Fprintln(os.Stderr, err)
+		os.Exit(1)
+	}
+	for name, content := range gx {
+		if err := os.WriteFile(filepath.Join(*out, name), []byte(content), 0o644); err != nil {
+			fmt.Fprintln(os.Stderr, err)
+			os.Exit(1)
+		}
+	}
 	l, err := lifecycles(*repo)
 	if err != nil {
 		fmt.Fprintln(os.Stderr, err)
